@@ -628,6 +628,21 @@ func chanSenders(d string) map[string]bool {
 	return out
 }
 
+// threadsInHTTPClient: goroutines launched through the server's thread group (the ones Close waits
+// for) that are inside an outbound net/http client request.
+func threadsInHTTPClient(d string) map[string]bool {
+	out := map[string]bool{}
+	for _, blk := range strings.Split(d, "\n\n") {
+		if strings.Contains(blk, "(*ThreadGroup).Launch") && strings.Contains(blk, "gca-backend/server.") &&
+			(strings.Contains(blk, "net/http.(*Client).") || strings.Contains(blk, "net/http.(*persistConn).roundTrip") || strings.Contains(blk, "net/http.(*Transport).roundTrip")) {
+			if m := goroutineHdr.FindStringSubmatch(strings.TrimLeft(blk, "\n")); m != nil {
+				out[m[1]] = true
+			}
+		}
+	}
+	return out
+}
+
 func commonKeys(a, b map[string]bool) []string {
 	var out []string
 	for k := range a {
@@ -756,6 +771,12 @@ func (w *world) closeJudged(ctx string, held []net.Conn, desc string) bool {
 			"Close() has not returned after %.0f s: it waits in ThreadGroup.Stop while %d sync handler goroutine(s) (ids %v, same in two dumps %v apart) are parked in io.ReadFull on connections the peer keeps idle – permanent while the peer stays idle", time.Since(t0).Seconds(), len(common), common, wait/2+2*time.Second)
 		ok = false
 	} else {
+		if ts := commonKeys(threadsInHTTPClient(d1), threadsInHTTPClient(d2)); c1 && c2 && len(ts) > 0 {
+			w.r.Violationf("shutdown-blocked-by-thread-waiting-for-peer-answer", map[string]interface{}{"scenario": desc, "context": ctx, "batch": w.b, "goroutines": dumpExcerpt(d2), "parked": ts},
+				"Close() has not returned after %.0f s: it waits in ThreadGroup.Stop while %d thread(s) of the server's thread group (ids %v, same in two dumps %v apart) sit in an outbound HTTP request to a peer that does not answer (no timeout): permanent while the peer stays silent", time.Since(t0).Seconds(), len(ts), ts, wait/2+2*time.Second)
+			w.closeDead, w.failed = true, true
+			return false
+		}
 		if cs := commonKeys(chanSenders(d1), chanSenders(d2)); c1 && c2 && len(cs) > 0 {
 			w.r.Violationf("shutdown-blocked-by-goroutine-parked-in-channel-send", map[string]interface{}{"scenario": desc, "context": ctx, "batch": w.b, "goroutines": dumpExcerpt(d2), "parked": cs},
 				"Close() has not returned after %.0f s: it waits in ThreadGroup.Stop while %d goroutine(s) of the server (ids %v, same in two dumps %v apart) are parked in a channel send that nobody receives any more", time.Since(t0).Seconds(), len(cs), cs, wait/2+2*time.Second)
